@@ -251,7 +251,7 @@ FILE_NAMES = ["T.1.dsdl", "1.2.T.1.0.dsdl", "T.a.0.dsdl", "x.T.1.0.dsdl", ".1.0.
               "sub dir/Ok.1.0.dsdl", "sub.dir/Ok.1.0.dsdl", "9sub/Ok.1.0.dsdl", "dir.dsdl/Ok.1.0.dsdl",
               # entries that are named like definitions but are not regular readable files
               "DIR:Empty.1.0.dsdl", "DIR:sub/Empty.1.0.uavcan", "LINK-DANGLING:Dangling.1.0.dsdl", "LINK-LOOP:Loop.1.0.dsdl",
-              "LINK-DIR:LinkToDir.1.0.dsdl"]
+              "LINK-DIR:LinkToDir.1.0.dsdl", "LINK-OUT:Outside.1.0.dsdl", "LINK-OUT:sub/Outside.1.0.uavcan", "LINK-LOOP:sub/Loop.1.0.dsdl"]
 DUPLICATES = [({"ns/A.1.0.dsdl": "@sealed\n", "ns/7000.A.1.0.dsdl": "uint8 a\n@sealed\n"}, "same name+version, different bodies"),
               ({"ns/A.1.0.dsdl": "@sealed\n", "ns/A.1.0.uavcan": "uint8 a\n@sealed\n"}, ".dsdl and .uavcan, different bodies"),
               ({"ns/A.1.0.dsdl": "@sealed\n", "ns/A.01.0.dsdl": "uint8 a\n@sealed\n"}, "A.1.0 and A.01.0"),
@@ -287,11 +287,40 @@ def filename_worker(arg):
             elif special == "LINK-DIR":
                 os.makedirs(tr.path("elsewhere"))
                 os.symlink(tr.path("elsewhere"), p)
+            elif special == "LINK-OUT":
+                os.makedirs(tr.path("elsewhere"))
+                with open(tr.path("elsewhere/Outside.1.0.dsdl"), "w") as f:
+                    f.write("@sealed\n")
+                os.symlink(tr.path("elsewhere/Outside.1.0.dsdl"), p)
         status, res, _ = dsdlio.read_ns(tr.path("ns"), allow_unregulated=True)
+        outcomes = [("read_namespace", status, res)]
+        if kind == "name":
+            # the same entry handed to read_files as a target, under several designations of target and root
+            import os
+            from pathlib import Path
+            tgt = tr.path("ns/" + (item2 if special else item))
+            old = os.getcwd()
+            os.chdir(str(tr.root))
+            try:
+                rel = os.path.relpath(tgt, str(tr.root))
+                for targets, roots in (([tgt], [tr.path("ns")]), ([Path(tgt)], ["ns"]), ([rel], []), (rel, tr.path("ns")),
+                                       ([tgt, tr.path("ns/Fine.1.0.dsdl")], [Path(tr.path("ns"))])):
+                    try:
+                        pydsdl.read_files(targets, roots, allow_unregulated_fixed_port_id=True)
+                        outcomes.append(("read_files", "ok", None))
+                    except BaseException as ex:      # noqa - the class of what escapes is the observation
+                        if isinstance(ex, (KeyboardInterrupt, SystemExit)):
+                            raise
+                        names = lambda x: [os.path.basename(str(y)) for y in (x if isinstance(x, (list, tuple)) else [x])]
+                        outcomes.append(("read_files(%r, %r)" % (names(targets), names(roots)), "err", ex))
+            finally:
+                os.chdir(old)
     r = {"nt": True, "key": core.jhash(label)}
-    if status == "err" and not isinstance(res, pydsdl.InvalidDefinitionError):
-        r["bad"] = {"kind": "file-name", "case": label, "files": sorted(files),
-                    "diff": [("escaped exception is not an InvalidDefinitionError", type(res).__name__, str(res)[:300])]}
+    for api, status, res in outcomes:
+        if status == "err" and not isinstance(res, pydsdl.InvalidDefinitionError):
+            r["bad"] = {"kind": "file-name", "case": label, "files": sorted(files), "api": api,
+                        "diff": [("escaped exception is not an InvalidDefinitionError", api, type(res).__name__, str(res)[:300])]}
+            break
     return r
 
 @core.safe
@@ -351,7 +380,7 @@ def run(ctx):
                 "mutations; each text is read: model or InvalidDefinitionError with a path. Every state of Expr.tla's operator x operand-kind grid "
                 "(17 binary, 3 unary, 4 attribute operators x 20 operand kinds incl. data types and sets of sets / types) is "
                 "placed in five expression contexts (@print, constant, capacity, @assert, @extent). 55 corner texts (incl. nesting of 45..400 levels and chains of 3 000 operators), seeded character "
-                "noise incl. control characters and byte sequences that are not UTF-8, 36 file-name shapes (incl. directories and dangling / looping links named like definitions) and 6 duplicate / case-variant file sets are added. "
+                "noise incl. control characters and byte sequences that are not UTF-8, 39 file-name shapes, each also as a read_files target under five designations (incl. directories and dangling / looping links named like definitions) and 6 duplicate / case-variant file sets are added. "
                 "Non-trivial = input that is rejected; distinct by hash of the mutation list / text")
     ctx.assumptions = ["exponents are small (towers such as 2**2**2**2**2**2 do not terminate "
                        "in reasonable time and are outside the statement's bounded magnitude)", "all Unicode strings are sampled, not "
